@@ -246,9 +246,15 @@ def hull(npts, rng, kind="hull"):
     """closed triangulation: convex hull of random points on the sphere"""
     from scipy.spatial import ConvexHull
 
-    pts = np.array([[rng.gauss(0, 1) for _ in range(3)] for _ in range(npts)])
-    pts /= np.linalg.norm(pts, axis=1, keepdims=True)
-    h = ConvexHull(pts)
+    # the hull's faces tile the sphere only when the centre lies strictly inside the hull (with few
+    # points it often does not: a "back" face then covers more than a hemisphere and the face rings
+    # around a node are no longer angularly ordered) — redraw until it does
+    for _ in range(200):
+        pts = np.array([[rng.gauss(0, 1) for _ in range(3)] for _ in range(npts)])
+        pts /= np.linalg.norm(pts, axis=1, keepdims=True)
+        h = ConvexHull(pts)
+        if (h.equations[:, 3] < -0.05).all():
+            break
     return AMesh(_orient(h.simplices.tolist(), pts), pts, True, f"{kind}{npts}")
 
 
